@@ -754,6 +754,12 @@ class CodeGen:
                 # It should be fine not to update self.stack yet though.
                 yield asm.Metadata('Array allocation (ArrayLiteral)')
                 yield asm.Add(self.ap, asm.State(self.ap), asm.IntLiteral(static_size))
+                # The array already occupies its space while the elements
+                # are evaluated, so their temporaries (and any nested
+                # array literals) must be checked against the stack with
+                # this array included.
+                self.stack = self.stack.add(static_array_size=static_size)
+                self.checkpoints.update(self.stack.static_size)
                 if el_type == DataType.BOOL:
                     foundation = self.pack_bools([
                         isinstance(el_expr, ast.BoolValue) and el_expr.data
@@ -801,6 +807,7 @@ class CodeGen:
                         offset += stride
                     assert offset == 0
 
+                self.stack = self.stack.add(static_array_size=-static_size)
                 access_mode = AccessMode.R if expr.type.const else AccessMode.RW
                 return self.create_new_stack_array(
                     ConcreteArrayType(expr.type.el_type, access_mode),
